@@ -36,7 +36,19 @@ TRUSTED = ['translate/pynames2coq.py (Python ast -> scope tree; syntactic, fail-
            'dir()/getattr facts of the installed libraries)',
            'harness/C19.py (bytecode reader: dis LOAD_GLOBAL/LOAD_NAME/LOAD_ATTR; live lookup in vars(module)/builtins)',
            'CPython 3.12 compiler: the names a code object loads by name are those dis reports']
-ASSUMPTIONS = ['function locals, closure variables and class attributes that may be unbound on some path are outside the claim',
+ASSUMPTIONS = ['STRICT reading (coq/Names/Scope.v, end): a module global counts only if a binding of it can take effect on import in '
+               'the installed environment - an import of a module that is not installed, `from m import n` of a missing n, '
+               'bindings inside `if __name__ == "__main__":`, the name of a module-level `except ... as e`, and names deleted '
+               'with `del` do NOT count; module-level code itself is judged permissively (it ran when the module was imported)',
+               'bindings under run-time conditions that cannot be decided statically (if/else, for/while bodies and else, try '
+               'bodies other than imports, `global x` assigned in a function that may not have run) count as bound: "possibly '
+               'unbound" is outside the claim; the live oracle judges them in the environment at hand',
+               'rejected as translator gap (never accepted silently): TYPE_CHECKING / constant-false / __debug__ guards, star '
+               'imports, from __future__ import annotations, exec/eval, getattr(<imported module>, "constant"), explicit '
+               '__class__, walrus in comprehensions, match, async, type aliases/parameters',
+               'a global with several effective bindings of different kinds (import + fallback assignment) is not typed as a '
+               'module: chains on it are left to the live oracle; getattr with a non-constant name is dynamic (outside)',
+               'function locals, closure variables and class attributes that may be unbound on some path are outside the claim',
                'instance attributes and attributes of non-module values are outside the claim',
                'failing import statements (e.g. tqdm inside util.get_cb) are outside the claim',
                'module globals are names bound anywhere at module level (a binding in a branch that did not run counts); '
@@ -121,6 +133,45 @@ def _loads(m, unit):
     return sorted(out)
 
 
+def _from_imports(m, unit):
+    """(absolute module, name, line) of every `from <module of the package> import name` the unit's bytecode executes"""
+    import importlib.util as iu
+    out = set()
+    for co in _units(m)[unit]:
+        ins = list(dis.get_instructions(co))
+        for i, x in enumerate(ins):
+            if x.opname != 'IMPORT_NAME' or i < 2 or ins[i - 2].opname != 'LOAD_CONST':
+                continue
+            level = ins[i - 2].argval
+            try:
+                absname = iu.resolve_name('.' * level + (x.argval or ''), T.PACKAGE) if level else x.argval
+            except ImportError:
+                continue
+            absname = absname.rstrip('.')
+            if absname.split('.')[0] != T.PACKAGE:
+                continue
+            j = i + 1
+            while j < len(ins) and ins[j].opname != 'POP_TOP':
+                if ins[j].opname == 'IMPORT_FROM':
+                    out.add((absname, ins[j].argval, ins[j].positions.lineno))
+                j += 1
+    return sorted(out)
+
+
+def _import_missing(absname, name):
+    try:
+        mod = importlib.import_module(absname)
+    except Exception:
+        return None          # a failing import of the module itself is outside the claim
+    if hasattr(mod, name):
+        return None
+    try:
+        importlib.import_module(absname + '.' + name)
+        return None
+    except Exception:
+        return f'from {absname} import {name}'
+
+
 def cases(tier, rng):
     yield {'k': 'strict_report', 'm': 'selftest2'}
     for m in SELFTESTS + MODULES:
@@ -193,8 +244,12 @@ def impl(case):
         return {'units': sorted(_units(m))}
     if case['k'] == 'unresolved':      # a report of the Coq checker (search), confirmed against the live module
         mod = _module(m)
-        text = case['name'].split('.')
-        bad = _missing(mod, text[0], text[1:])
+        fm = re.match(r'from (\S+) import (\S+)$', case['name'])
+        if fm:
+            bad = _import_missing(fm.group(1), fm.group(2))
+        else:
+            text = case['name'].split('.')
+            bad = _missing(mod, text[0], text[1:])
         return {'missing': [[bad, case['line']]] if bad else []}
     loads = _loads(m, case['unit'])
     missing = []
@@ -202,6 +257,10 @@ def impl(case):
         mod = _module(m)
         for name, attrs, line in loads:
             bad = _missing(mod, name, attrs)
+            if bad:
+                missing.append([bad, line])
+        for absname, name, line in _from_imports(m, case['unit']):
+            bad = _import_missing(absname, name)
             if bad:
                 missing.append([bad, line])
     return {'loads': [[n, list(a), l] for n, a, l in loads], 'missing': missing}
@@ -285,11 +344,12 @@ def search(tier, rng):
     checker reports and keep those that the live module confirms."""
     found = []
     for m, unit, text, line in sorted(set(checker_report())):
-        if text.startswith('translator gap') or text.startswith('from '):
+        if text.startswith('translator gap'):
             continue
         try:
+            fm = re.match(r'from (\S+) import (\S+)$', text)
             parts = text.split('.')
-            bad = _missing(_module(m), parts[0], parts[1:])
+            bad = _import_missing(fm.group(1), fm.group(2)) if fm else _missing(_module(m), parts[0], parts[1:])
             if not bad:
                 continue           # the live module resolves it: not a confirmed failing input
             case = {'k': 'unresolved', 'm': m, 'unit': unit, 'name': bad, 'line': line}
